@@ -14,6 +14,8 @@ mod raw_response_type;
 mod reader_ast;
 mod refetch_reader_artifact;
 mod ts_config;
+#[cfg(feature = "isographlabs_isograph_verif")]
+pub mod verif;
 
 pub use file_system_state::FileSystemState;
 pub use generate_artifacts::get_artifact_path_and_content;
